@@ -221,6 +221,7 @@ func (g *sgen) stmt() {
 		2,                 // 8 define array / map
 		b2i(!deep) * 2,    // 9 for-in
 		b2i(g.fdepth < 3) * 2, // 10 iife statement mutating outer variables
+		b2i(!deep && g.loops == 0 && g.fdepth < 3) * 3, // 11 closure that outlives the (non-loop) block declaring its variable
 	}
 	switch g.r.Weighted(w) {
 	case 0:
@@ -279,6 +280,8 @@ func (g *sgen) stmt() {
 		} else {
 			g.defArr()
 		}
+	case 11:
+		g.escapeBlock()
 	case 10:
 		g.Feat["iife-stmt"]++
 		g.line("(func() {")
@@ -443,6 +446,39 @@ func (g *sgen) counterFactory() {
 		e += " * 10 + " + c2 + "()"
 	}
 	g.line(r + " := " + e)
+	g.declare(&svar{name: r, kind: 0})
+}
+
+// escapeBlock: a closure assigned to a variable of the enclosing scope captures a variable declared
+// in an `if` block and is called after the block has ended (no loop involved, so every placement must
+// agree). At top level the block variable is a global slot of its own; in a function it is a local
+// slot that later declarations reuse while the closure keeps its cell.
+func (g *sgen) escapeBlock() {
+	g.Feat["escape-block"]++
+	h := g.fnName()
+	g.line(h + " := func() { return " + g.intExpr(0) + " }")
+	g.declare(&svar{name: h, kind: 5, ro: true})
+	g.line("if " + g.intExpr(1) + " >= " + g.intExpr(1) + " {")
+	g.block(func() {
+		if g.r.Bool() {
+			g.defInt()
+		}
+		t := g.newName()
+		g.line(t + " := " + g.intExpr(1))
+		g.declare(&svar{name: t, kind: 0})
+		g.line(h + " = func() { " + t + " += " + g.intExpr(0) + "; return " + t + " }")
+		if g.r.Bool() {
+			g.assign()
+		}
+	})
+	g.line("}")
+	// declarations after the block reuse the block's slots
+	g.defInt()
+	if g.r.Bool() {
+		g.defInt()
+	}
+	r := g.newName()
+	g.line(r + " := " + h + "() * 10 + " + h + "()")
 	g.declare(&svar{name: r, kind: 0})
 }
 
